@@ -975,6 +975,10 @@ func (d *Data) ModifyConfig(config dvid.Config) error {
 	if err != nil {
 		return err
 	}
+	if d.tags == nil {
+		// a reloaded instance always has a non-nil (possibly empty) tag map; start the same way
+		d.tags = make(map[string]string)
+	}
 	if found {
 		tagassigns := strings.Split(s, ",")
 		d.tags = make(map[string]string, len(tagassigns))
